@@ -112,7 +112,7 @@ def run(ctx):
             (ctx.harness(["-seed", ctx.seed + 104729, "-n", n_sync // 2, "-maxops", maxops, "-reconciler"]) or []) + \
             (ctx.harness(["-seed", ctx.seed + 15485863, "-n", 6 if ctx.tier == "quick" else 60, "-maxops", maxops,
                           "-bigfirst", 1500]) or []) + \
-            (ctx.harness(["-seed", ctx.seed + 67867967, "-n", 4 if ctx.tier == "quick" else 40, "-idlefamily"]) or [])
+            (ctx.harness(["-seed", ctx.seed + 67867967, "-n", 16 if ctx.tier == "quick" else 160, "-idlefamily"]) or [])
     if not getattr(ctx, "harness_ok", False):
         ctx.broken("harness does not build against the current tree", detail="\n".join(ctx.build_errors))
 
@@ -167,8 +167,11 @@ def run(ctx):
         "evaluations": len(lines) + len(dlines) + len(plines),
         "distinct_nontrivial": nontrivial,
         "rule": "schedules of send/release/cancel over the real EventLoop, a quarter of them with an EMPTY start-up batch (sync: model equality + judge; racy: judge only; "
-                "idlefamily: start-up batch or in-flight burst of 1024..1100 events, then 3-5 events each offered only after the handler was "
-                "observed idle, bounded wait - clause idle_implies_empty_next; reconciler: "
+                "idlefamily: start-up batch or in-flight burst of 1024..1100 events, or bursts of 60..70 / 120..135 events coalesced while a "
+                "batch is in flight after 0-3 earlier single-event batches (either buffer in flight; batch recorded at handler entry and exit), "
+                "then 3-5 events each offered only after the handler was observed idle, bounded wait - clauses handler_view_stable, "
+                "idle_implies_empty_next; delivery: Get errors of three classes (plain, wrapping context.DeadlineExceeded / Canceled) while "
+                "the context is alive, with controller-runtime's requeue-on-error (same request re-invoked until nil error); reconciler: "
                 "events delivered through the real controller.Reconciler as upserts/deletes, identity re-read from the event objects); "
                 "delivery: 1-3 real Reconcilers (filter / found / NotFound / Get error) parked behind a loop whose start-up is stalled "
                 "(one case 6 s in quick, up to 20 s in thorough), with and without cancellation, model equality + judge; prepare: real "
